@@ -10,7 +10,8 @@ RULE = ("fresh servers (Unix and TCP): clients connect and send requests, the ap
         "server is dropped at varying points (no client, idle clients, held requests, right after an accept), then a new client "
         "tries to connect (a refusal must come within 1 s), the UNIX socket path is checked, the listening socket must have "
         "disappeared from the kernel's socket table within 1 s (also with a pipelined request queued behind a held one of the "
-        "same connection), and the held requests are answered "
+        "same connection, and with 40..70 (thorough: 300) idle connections open), a UNIX server whose accept loop had already "
+        "ended still removes its path, and the held requests are answered "
         "and must reach their clients; compared with the extracted accept-loop/Drop model run eagerly; and the real TaskPool: a "
         "burst of never-ending tasks, release, then the 5 s idle period: the pool's thread count must be back at or below the "
         "minimum (4) although 8..30 threads existed, and later dispatches must still start; non-trivial = the server is dropped "
@@ -35,6 +36,17 @@ def gen(tier, rng):
             # a pipelined request still queued behind a held one of the same connection when the server is dropped
             yield "sd %s C1,w%d,r,d,w200,x9,l,p,a" % (kind, rng.choice([50, 150])), {"scenario": "queued-behind-held"}
             yield "sd %s C1,w100,r,c2,w50,d,x9,l,a,p" % kind, {"scenario": "queued-behind-held-2"}
+    # many idle keep-alive connections are open when the server is dropped (far above the pool's minimum): refusal and
+    # the closed listener must not depend on any of them going away
+    for kind, n in (("u", 40), ("t", 70)) if tier == "quick" else (("u", 40), ("t", 70), ("u", 300), ("t", 150)):
+        cs = ",".join("c%d" % k for k in range(2, n + 1))
+        # (the first request is received and held before the others connect: which of several concurrent connections gets
+        # its request queued first is not determined)
+        yield "sd %s c1,w60,r,%s,w100,d,x999,l,p,a" % (kind, cs), {"scenario": "dropped-with-%d-open-connections" % n}
+    # a UNIX-socket server whose accept loop has already ended (listener handed in non-blocking: accept fails at once):
+    # dropping the server must still remove the socket path
+    yield "sd n w150,d,p,x1", {"scenario": "accept-loop-already-ended"}
+    yield "sd n d,p,x1", {"scenario": "accept-loop-already-ended"}
     # the real pool under the controllable runtime: bursts, release, the idle period in VIRTUAL time, later
     # dispatches, dropping the pool; lock-step replay through the model
     ns = 40 if tier == "quick" else 600
